@@ -15,6 +15,16 @@ pub fn dispatch(k: &str, t: &[&str]) -> Option<String> {
                 Err(_) => Some("err decode".to_string()),
             }
         }
+        "xor_roundtrip" => {
+            let floats: Vec<f64> = vec_of::<u64>(t[0]).into_iter().map(f64::from_bits).collect();
+            let regret: u32 = num(t[1]);
+            let mantissa: Option<u32> = if t[2] == "none" { None } else { Some(num(t[2])) };
+            let bytes = locustdb_compression_utils::xor_float::double::encode(&floats, regret, mantissa);
+            match locustdb_compression_utils::xor_float::double::decode(&bytes) {
+                Ok(v) => Some(format!("ok {}", fmt_vec(&v.iter().map(|x| x.to_bits()).collect::<Vec<u64>>()))),
+                Err(_) => Some("err".to_string()),
+            }
+        }
         _ => None,
     }
 }
